@@ -68,11 +68,11 @@ class Slice:
 
 
 QUICK = [
-    Slice("single3", "single", 0, 3, opts="some", nshards=6),
+    Slice("single3", "single", 0, 3, opts="some", nshards=3),
     Slice("pairs3", "multi", 0, 3, opts="two", nops=2, nshards=4),
-    Slice("triples3", "multi", 0, 3, opts="two", nops=3, nshards=6),
-    Slice("filter3", "filter", 0, 3, opts="ders2", maxempty=1, nshards=6),
-    Slice("count3", "count", 0, 3, opts="two", maxempty=1, nshards=3),
+    Slice("triples3", "multi", 0, 3, opts="two", nops=3, nshards=5),
+    Slice("filter3", "filter", 0, 3, opts="ders2", maxempty=1, nshards=3),
+    Slice("count3", "count", 0, 3, opts="two", maxempty=1, nshards=1),
 ]
 THOROUGH = [
     Slice("single4", "single", 4, 4, opts="few", nshards=32),
@@ -463,7 +463,7 @@ def run(ctx: Ctx) -> None:
     jobs = []
     for sl in slices:
         for sh in range(sl.nshards):
-            jobs.append((sl, sh, str(ctx.workdir(f"{sl.name}_{sh}")), 30 if sh < 3 else 0))
+            jobs.append((sl, sh, str(ctx.workdir(f"{sl.name}_{sh}")), 90 if sh == 0 else 0))
     # deterministic order of consumption: results are gathered, then processed by (slice, shard)
     results: dict[tuple[str, int], dict] = {}
     nproc = min(16, os.cpu_count() or 4)
